@@ -22,7 +22,8 @@ BUDGET = {'quick': 600, 'thorough': 3600}
 LOGICS = ('PL', 'LTL', 'CTLS', 'CTL')
 ATOMS = ['p', 'q', 'x1', '_a', 'Ap', 'AX', 'EG', 'Xp', 'Unot', 'andy', 'U1', 'a_R', 'Req', 'Grant',
          'Go', 'Fp', 'nota', 'truex', 'falsey', 'ore', 'TRUE', 'Not', 'A_', 'E1', 'R2d2', 'XX', 'FG',
-         '__', 'p_U_q', 'orb', 'Gp', 'trueA', 'notnot']
+         '__', 'p_U_q', 'orb', 'Gp', 'trueA', 'notnot', 'True', 'False', 'AF', 'EX', 'AG', 'EF', 'None',
+         'S', 'and_', 'B']
 NB3 = 64
 
 _PARSERS = {}
